@@ -3,6 +3,8 @@
 //! * I/O events: numbered per calling thread after `arm()`; the process can be made to abort right
 //!   before the k-th event (crash-point replay), and the kinds of the events are recorded.
 //! * An optional observer is called before every armed event (it must not perform hooked I/O).
+//! * Scheduling points: a process-wide hook is called at named points of the read/append paths where the
+//!   calling thread holds no lock, so that a controller can serialise threads and impose an interleaving.
 //! * Faults: the n-th occurrence of a fault site on the calling thread reports an injected failure.
 use std::cell::RefCell;
 
@@ -97,4 +99,18 @@ pub(crate) fn fault(kind: &'static str) -> bool {
         };
         seen == nth
     })
+}
+
+static SCHED_HOOK: std::sync::RwLock<Option<fn(&'static str)>> = std::sync::RwLock::new(None);
+
+/// Install (or remove) the process-wide scheduling hook.
+pub fn set_sched_hook(f: Option<fn(&'static str)>) {
+    *SCHED_HOOK.write().unwrap() = f;
+}
+
+pub(crate) fn sched_point(site: &'static str) {
+    let f = *SCHED_HOOK.read().unwrap();
+    if let Some(f) = f {
+        f(site);
+    }
 }
